@@ -97,6 +97,30 @@ def reply_battery(repo):
                 if len(set(den)) == len(den) and restored != want:
                     problems.append('%r: restored %r expected %r' % (
                         reply, restored, want))
+    # scope: the entries offered for a directory are those at or beneath it
+    # at a component boundary - siblings whose name merely starts with the
+    # same characters, and directories whose name contains glob characters
+    with Sandbox(repo) as sb:
+        td = sb.path('T')
+        work = sb.path('work')
+        locs = {'e1': 'a/foo/x', 'e2': 'a/foobar/y', 'e3': 'a/foobar', 'e4': 'a/foo',
+                'e5': 'a/Miles [1959]/z', 'e6': 'a/M/z', 'e7': 'a/fo'}
+        for nm, rel in locs.items():
+            sb.add_entry(td, nm, path=os.path.join(work, rel))
+        os.makedirs(os.path.join(work, 'a', 'Miles [1959]'))
+        for arg, want in (('a/foo', {'a/foo/x', 'a/foo'}),
+                          ('a/foobar', {'a/foobar/y', 'a/foobar'}),
+                          ('a/Miles [1959]', {'a/Miles [1959]/z'}),
+                          ('a', set(locs.values()))):
+            run = sb.run('trash-restore', ['--trash-dir', td, os.path.join(work, arg)],
+                         stdin='\n', cwd=sb.root)
+            shown = set()
+            for l in run['stdout'].split('\n'):
+                if l.strip()[:1].isdigit() and work in l:
+                    shown.add(l.split(work + '/', 1)[1])
+            if shown != want:
+                problems.append('trash-restore %s offers %r, the entries at or beneath '
+                                'it are %r' % (arg, sorted(shown), sorted(want)))
     return {'confirmed': bool(problems), 'problems': problems[:10],
             'bounded': '%d literal replies x 3 entries' % len(replies)}
 
